@@ -76,6 +76,7 @@ type PKI struct {
 	SrvSignExpired, SrvSignFuture, SrvSignWrongName              *Ident
 	SrvEncExpired                                                *Ident
 	Client, ClientUntrusted, ClientExpired, ClientServerAuthOnly *Ident
+	SM2Inter, ClientViaInter                                     *Ident // issuing CA under SM2Root; client leaf under it (chain leaf+intermediate)
 	RSARoot, RSASrv                                              *Ident
 	ECRoot, ECSrv                                                *Ident
 	RSAClient                                                    *Ident
@@ -200,6 +201,12 @@ func GetPKI() *PKI {
 		p.ClientExpired = mkSM2(certOpt{cn: "client", ku: signKU, eku: cliEKU, nb: Now.Add(-2 * y), na: Now.Add(-24 * time.Hour)}, k, d, p.SM2Root)
 		k, d = sm2Key(14)
 		p.ClientServerAuthOnly = mkSM2(valid(certOpt{cn: "client", ku: signKU, eku: srvEKU}), k, d, p.SM2Root)
+		// a client certificate issued by an intermediate CA; its TLS chain is [leaf, intermediate]
+		k, d = sm2Key(15)
+		p.SM2Inter = mkSM2(valid(certOpt{cn: "SM2 Issuing CA", ca: true, ku: caKU}), k, d, p.SM2Root)
+		k, d = sm2Key(16)
+		p.ClientViaInter = mkSM2(valid(certOpt{cn: "client via intermediate", ku: signKU, eku: cliEKU}), k, d, p.SM2Inter)
+		p.ClientViaInter.TLS.Certificate = [][]byte{p.ClientViaInter.DER, p.SM2Inter.DER}
 		// RSA and ECDSA for the TLS side
 		rk, err := rsa.GenerateKey(rand.Reader, 2048)
 		if err != nil {
